@@ -217,7 +217,10 @@ func (s *QSeq) AppendColumns(a ...[]alphabet.QLetter) error {
 		}
 	}
 
-	s.Seq = append(s.Seq, a...)
+	s.Seq = append(s.Seq, make([][]alphabet.QLetter, len(a))...)[:len(s.Seq)]
+	for _, c := range a {
+		s.Seq = append(s.Seq, append([]alphabet.QLetter(nil), c...))
+	}
 
 	return nil
 }
